@@ -537,6 +537,15 @@ func c08Run(dir string, scenario string) c08Obs {
 			}
 			out = append(out, "rows:\n"+sortedLines(rows))
 		}
+		// a tree in which no file has a recognised language: empty language list, one row per directory
+		empty := cloc.BuildClocCsvData(map[string]map[string]processor.LanguageSummary{"assets": {}, "blobs": {}, "media": {}}, nil)
+		var erows []string
+		for _, r := range empty {
+			erows = append(erows, strings.Join(r, ","))
+		}
+		if len(erows) > 0 {
+			out = append(out, "no-language header: "+erows[0], "no-language rows:\n"+sortedLines(erows[1:]))
+		}
 	case "go-frontend":
 		cf := (&goapp.GoIdentApp{}).Analysis(c08GoSrc, "proj/p/file.go")
 		for i, d := range cf.DataStructures {
